@@ -135,7 +135,16 @@ func propC07(c *Ctx, r *Report) {
 		var others []string
 		for _, n := range names {
 			if n != "SelectPendingRates" && n != "SelectMostRecentRatesBeforeHeight" {
-				others = append(others, n)
+				// loggers that travel in the same struct as the per-block values are not rate sources
+				onlyLog := true
+				for _, pc := range calls[n] {
+					if !strings.Contains(calleePkgPath(pc.Common()), "sirupsen/logrus") {
+						onlyLog = false
+					}
+				}
+				if !onlyLog {
+					others = append(others, n)
+				}
 			}
 		}
 		r.check(okOwn && len(others) == 0, "C07-R2/rates-of-own-block", "rates argument of the holding executor", c.ipos(ci), "defined by SelectPendingRates(height); other reaching definitions (snapshot fallbacks, taken only when the block has no rates): "+strings.Join(names, ","), fmt.Sprintf("own-height read present=%v, unexpected rate sources: %v", okOwn, others))
